@@ -203,7 +203,7 @@ def views(name, est):
     return out
 
 
-def gen_zoo_history(rng, name, veto_ok=False):
+def gen_zoo_history(rng, name, veto_ok=False, refusals=False):
     z = make(name, rng)
     if veto_ok and name in ("Fusion", "DualVigilance", "Topo") and rng.random() < 0.6:
         z["veto"] = TableVeto(rng)
@@ -214,7 +214,8 @@ def gen_zoo_history(rng, name, veto_ok=False):
     if z["pf"]:
         shape = rng.choice(["fit", "pf", "fit+fit", "fit+pf", "pf1"])
     else:
-        shape = rng.choice(["fit", "fit+fit", "fit+pf"])      # the partial_fit may be refused - then nothing may change
+        # refusals: also try the incremental call these estimators do not offer (C05: a refusal changes nothing)
+        shape = rng.choice(["fit", "fit+fit", "fit+pf"] if refusals else ["fit", "fit+fit"])
     idx = list(range(nrows(X)))
     ops = []
     if shape == "fit":
@@ -249,7 +250,7 @@ def book_oracle_all(rng, n):
     fails, count = [], 0
     for _ in range(n):
         name = rng.choice(NAMES)
-        z, X, y, ops, mode, eps = gen_zoo_history(rng, name)
+        z, X, y, ops, mode, eps = gen_zoo_history(rng, name, refusals=True)
         est = z["est"]
         presented = 0
         supplied = []
